@@ -122,6 +122,19 @@ def circle_m0sqr(case):
     return sum(x * x for x in cr)
 
 
+def ellipsoid_newton_scale(case):
+    """prod_i (t0 + r_i^2)^2 at the starting value t0 = max(r) * |q| of point_to_ellipsoid's Newton iteration (floats):
+    the magnitude against which the ABSOLUTE stopping test |s| < 1e-16 is made"""
+    P, r, p = case["B"]["pose"], case["B"]["radii"], case["A"]["p"]
+    t = [P[i][3] for i in range(3)]
+    q = [sum(P[k][i] * (p[k] - t[k]) for k in range(3)) for i in range(3)]
+    t0 = max(r) * math.sqrt(sum(x * x for x in q))
+    out = 1.0
+    for ri in r:
+        out *= (t0 + ri * ri) ** 2
+    return out
+
+
 def known_id(case, r):
     """id of the C11 known finding whose predicate the input satisfies, else None"""
     fn = case["fn"]
@@ -135,6 +148,8 @@ def known_id(case, r):
         if r.get("on_line") is False:
             return "F10"          # endpoint clamp arm taken
     # FD1 (plane_to_hull shallow crossing) and F8 (s_hat) are FIXED in /repo (e4c9460, df96822): no routing any more
+    if fn == "point_to_ellipsoid" and ellipsoid_newton_scale(case) < 1e-8:
+        return "FD6"              # small ellipsoid: the absolute test |s| < 1e-16 stops Newton's method at once
     if fn == "disk_to_disk":
         cls = disk_class(case)
         if cls == "general":
@@ -259,6 +274,13 @@ def run(tier, seed, replay=None):
     # ---- re-check every certificate with the Coq-proven checker
     n_coq = 0
     if c10.have_coq_checker():
+        if tier == "quick" and not replay:
+            quota, kept = {}, []
+            for c, r, n in certs:          # CPU budget: at most 12 certificates per function go to Coq in the quick tier
+                if quota.get(c["fn"], 0) < 12 or c["stream"] == "corpus":
+                    quota[c["fn"]] = quota.get(c["fn"], 0) + 1
+                    kept.append((c, r, n))
+            certs = kept
         exprs = []
         for c, r, n in certs:
             d, _, _ = c10.result_points(c, r)
